@@ -82,6 +82,8 @@ type recSink struct {
 	buf     bytes.Buffer
 	calls   []int
 	failAt  int
+	once    bool // transient fault: only the failAt-th call fails
+	atFail  int  // bytes in the sink when the fault happened (-1: no fault yet)
 	limit   int
 	runaway bool
 	delay   time.Duration // slow sink: sleep this long in every Write
@@ -114,7 +116,10 @@ func (s *recSink) Write(p []byte) (int, error) {
 	s.mu.Lock()
 	defer s.mu.Unlock()
 	s.calls = append(s.calls, len(p))
-	if s.failAt > 0 && len(s.calls) >= s.failAt {
+	if s.failAt > 0 && (len(s.calls) == s.failAt || (!s.once && len(s.calls) > s.failAt)) {
+		if len(s.calls) == s.failAt {
+			s.atFail = s.buf.Len()
+		}
 		return 0, errInjected
 	}
 	if s.limit > 0 && s.buf.Len()+len(p) > s.limit {
@@ -281,7 +286,13 @@ func runWriter(o wopts, input []byte, calls []wcall, sink *recSink, blocks *[]in
 				n = len(input) - pos
 			}
 			r.N = n
-			ret, err := zw.Write(input[pos : pos+n])
+			// io.Writer: Write must not retain p - hand over a copy and overwrite it as soon as the call
+			// returns, as a caller reusing its buffer (io.Copy) would
+			tmp := append([]byte(nil), input[pos:pos+n]...)
+			ret, err := zw.Write(tmp)
+			for i := range tmp {
+				tmp[i] = 0xEE
+			}
 			r.Ret, r.Err = ret, classify(err)
 			if ret > 0 && ret <= n {
 				pos += ret
